@@ -564,13 +564,23 @@ class FileCache:
 
         # for all URI's not in cache
         if cache_misses := self.get_cache_misses(uris, directives):
-            was_succesfully_downloaded = _download_from_resources(
-                cache_misses,
-                self.resources,
-                parallel_download=self.config.parallel,
-                disable_progress_bar=self.disable_progress_bar,
-                desc=self.description,
-            )
+            try:
+                was_succesfully_downloaded = _download_from_resources(
+                    cache_misses,
+                    self.resources,
+                    parallel_download=self.config.parallel,
+                    disable_progress_bar=self.disable_progress_bar,
+                    desc=self.description,
+                )
+            except Exception:
+                # Keep the cache consistent with the directory: downloads that
+                # did complete before the failure are registered (and evicted
+                # if needed) before the error is passed on.
+                for cache_miss in cache_misses:
+                    if os.path.exists(cache_miss.filepath):
+                        self._add_to_cache(cache_miss.filename, cache_miss.filepath)
+                self._cache_eviction()
+                raise
 
             for cache_miss, success in zip(cache_misses, was_succesfully_downloaded):
                 if success:
